@@ -125,6 +125,10 @@ def run_tlc(ctx, module, cfg, files=None, extra=None, workers="auto", timeout=60
     tmp = os.path.join(wd, "tmp")
     os.makedirs(tmp, exist_ok=True)
     jopts = ["-XX:+UseParallelGC", "-Xss512m", "-Djava.io.tmpdir=" + tmp]
+    if not heap:
+        # the JVM default is a quarter of the RAM per process; a dozen trace validations in parallel were OOM-killed
+        # (62 GB machine, 5.5 GB resident each).  Single-worker runs are trace validations / generators: 4 GB is plenty.
+        heap = "4g" if str(workers) == "1" else "14g"
     if heap:
         jopts.append("-Xmx" + heap)
     if depth_first:
